@@ -19,7 +19,9 @@ from common import cstr, clist, cpair, cz, cn, copt, cbool
 
 THEOREMS = ['C11_inverse_den', 'C11_inverse_complcell_rejects',
             'C11_pot_complement_den', 'C11_pot_complement_lattice_empty',
-            'C11_parse_print', 'C11_parse_print_den',
+            'C11_parse_print_tokens', 'C11_lex_render',
+            'C11_parse_print_canonical', 'C11_parse_print',
+            'C11_layout_exists',
             'C11_nested_refuted', 'C11_colon_hash_refuted']
 TRUSTED = [
     'hand-written model coq/C11/Model.v: lexer + precedence parser standing '
